@@ -52,6 +52,12 @@ pub struct GenOpts {
     pub zero_pct: u64,
     /// chance (percent) that the destructor of one element panics
     pub drop_panic_pct: u64,
+    /// chance (percent) that a per-thread iterator operation is `ids_and_values().nth(k)`
+    pub wrapper_nth_pct: u64,
+    /// chance (percent) that a ONE-SHOT chunk pull on a wrapped iterator asks for a size at the
+    /// edge of usize ("give me the rest"); only where the known finding K2 (ticket wrap-around
+    /// after such a request) cannot be mistaken for a violation of the property checked
+    pub huge_iter_oneshot_pct: u64,
 }
 
 impl GenOpts {
@@ -90,6 +96,8 @@ impl GenOpts {
             consumer_panic_pct: 0,
             zero_pct: 0,
             drop_panic_pct: 0,
+            wrapper_nth_pct: 0,
+            huge_iter_oneshot_pct: 0,
         }
     }
 }
@@ -140,6 +148,9 @@ pub fn opts_for(prop: &str) -> GenOpts {
             o.w_chunk = 25;
             o.w_buf = 25;
             o.stale_pct = 25;
+            // other Iterator methods of the per-thread wrappers: the pair they return must be an
+            // element with its own position as well (seeded change C02-r8)
+            o.wrapper_nth_pct = 35;
         }
         "C03" => {
             // "take the rest" chunk sizes at the edge of usize (known-size kinds only)
@@ -218,6 +229,11 @@ pub fn opts_for(prop: &str) -> GenOpts {
             o.min_threads = 2;
             o.stale_pct = 15;
             o.drain = false;
+            // "give me the rest" on a wrapped iterator: whatever happens to the caller, the
+            // others must still return (seeded change C09-r8)
+            o.huge_pct = 4;
+            o.huge_iter_oneshot_pct = 30;
+            o.pre_pct = 20;
         }
         "C10" => {
             o.w_skip = 6;
@@ -442,7 +458,14 @@ fn huge_chunk_size(rng: &mut Rng) -> usize {
     ])
 }
 
-fn gen_ops(rng: &mut Rng, o: &GenOpts, len: usize, is_thread: bool, huge_pct: u64) -> Vec<Op> {
+fn gen_ops(
+    rng: &mut Rng,
+    o: &GenOpts,
+    len: usize,
+    is_thread: bool,
+    huge_pct: u64,
+    huge_oneshot_pct: u64,
+) -> Vec<Op> {
     let n = rng.range(0, o.max_ops);
     let weights = [
         o.w_single,
@@ -464,7 +487,7 @@ fn gen_ops(rng: &mut Rng, o: &GenOpts, len: usize, is_thread: bool, huge_pct: u6
                 Op::NextIdVal
             }),
             1 => {
-                let huge = rng.chance(huge_pct, 100);
+                let huge = rng.chance(huge_oneshot_pct, 100);
                 let c = if huge {
                     huge_chunk_size(rng)
                 } else if o.zero_pct > 0 && rng.chance(o.zero_pct, 100) {
@@ -499,6 +522,9 @@ fn gen_ops(rng: &mut Rng, o: &GenOpts, len: usize, is_thread: bool, huge_pct: u6
                     ops.push(Op::BufDrop);
                     has_buf = false;
                 }
+            }
+            3 if o.wrapper_nth_pct > 0 && rng.chance(o.wrapper_nth_pct, 100) => {
+                ops.push(Op::IdsValuesNth(rng.range(1, 3)));
             }
             3 => {
                 let m = rng.range(1, 3);
@@ -622,9 +648,24 @@ pub fn generate_with(prop: &str, o: &GenOpts, base_seed: u64, index: u64) -> Run
     let nthreads = rng.range(o.min_threads, o.max_threads);
     // sizes at the edge of usize only where the length is known (K2 covers the unknown-size case)
     let huge_pct = if kind.known_size() { o.huge_pct } else { 0 };
+    // a one-shot chunk pull allocates nothing in advance, also over a wrapped iterator
+    let huge_oneshot_pct = if kind.known_size() {
+        o.huge_pct
+    } else {
+        o.huge_iter_oneshot_pct
+    };
     let mut threads = Vec::new();
     for _ in 0..nthreads {
-        let mut ops = gen_ops(&mut rng, o, len, true, huge_pct);
+        // (wrapped iterators: such a request only in the sequential prefix; concurrent with
+        // other pulls it runs into the known finding K2, the ticket wrap-around)
+        let mut ops = gen_ops(
+            &mut rng,
+            o,
+            len,
+            true,
+            huge_pct,
+            if kind.known_size() { huge_oneshot_pct } else { 0 },
+        );
         let stopped = ops.last() == Some(&Op::Stop);
         if o.drain && !stopped {
             let extra = if rng.chance(1, 3) {
@@ -665,7 +706,7 @@ pub fn generate_with(prop: &str, o: &GenOpts, base_seed: u64, index: u64) -> Run
         threads.push(ops);
     }
     let pre = if rng.chance(o.pre_pct, 100) {
-        let mut p = gen_ops(&mut rng, o, len, false, huge_pct);
+        let mut p = gen_ops(&mut rng, o, len, false, huge_pct, huge_oneshot_pct);
         p.retain(|op| !matches!(op, Op::Stop));
         p
     } else {
